@@ -227,7 +227,7 @@ fn c04_shard(ctx: &Ctx, out: &mut ShardOut) {
         Ok(CaseInfo { nontrivial: s.reclaimed_before_teardown > 0 && s.key_clones > 0, classes: cl, evaluations: 1, sub_hashes: vec![] })
     });
     drive(ctx, "set", ctx.shard_seed(2), n_set, seq_case_strategy(true, 120), out, |c| {
-        let s = run_set_case(c, C04_OR).map_err(|f| to_casefail("C04", f))?;
+        let _s = run_set_case(c, C04_OR).map_err(|f| to_casefail("C04", f))?;
         Ok(CaseInfo { nontrivial: false, classes: vec![("set_cases", 1)], evaluations: 1, sub_hashes: vec![] })
     });
     let pool = crate::sched::Pool::new();
